@@ -1,11 +1,300 @@
+import Afkak.Consumer
+import Afkak.Monitor.C02
+import Afkak.Monitor.C03
+import Afkak.Monitor.C13
+import Afkak.Monitor.C14
 import Driver.Util
-/-! Driver for the `Consumer` component (stub until the component is built). -/
-namespace Driver.Consumer
+/-!
+# Line-protocol driver for the `Consumer` model (exe `model_consumer`)
 
-def step (st : Unit) (_line : String) : Unit × List String := (st, ["bad-op"])
+Requests (one per line):
+* `new group=0|1 autoN=<n> autoS=<rat> buf=<n> max=<n|-> init=<rat> maxd=<rat> attempts=<n> reset=<int|-> cancelReq=<kind:tag|-> cancelCommit=<kind:tag|->`
+  starts a scenario (answer `ok`);
+* `script <acts>/<res> ...` with `<acts>` = `-` or `stop,commit,shutdown` and `<res>` = `ok|defer|err:<kind>:<tag>` (answer `ok`);
+* an event (`start <off>`, `stop`, `shutdown`, `commit`, `fetchDone k ok <off:pid,..|-> <end|small|raise:kind:tag>`,
+  `fetchDone k err kind:tag`, `offsetDone k ok <off>` / `err kind:tag`, `offsetFetchDone …`, `commitDone k ok` / `err kind:tag`,
+  `procDone ok` / `procDone err kind:tag`, `retryFire`, `commitRetryFire`, `autoCommitTick`, `advance <rat>`,
+  `env <kind:tag|-> <kind:tag|->`): answer = the model's observations for that event, one per line;
+* `tr-reset`, `tr ev <event>`, `tr ob <observation>`: record an IMPLEMENTATION trace; `mon <name>` evaluates a monitor on
+  it (answer `ok` or `fail`); `mon-model <name>` evaluates it on the model's own trace of the current scenario.
+Malformed request ⇒ `bad-op`.
+-/
+namespace Driver.Consumer
+open Afkak.Consumer Driver
+
+def parseRat (s : String) : Option Rat :=
+  match s.splitOn "/" with
+  | [a] => a.toInt?.map (fun i => (i : Rat))
+  | [a, b] => do
+    let n ← a.toInt?
+    let d ← b.toNat?
+    if d == 0 then none else some ((n : Rat) / (d : Rat))
+  | _ => none
+
+def showRat (r : Rat) : String := if r.den == 1 then toString r.num else s!"{r.num}/{r.den}"
+
+def parseKind : String → Option ErrKind
+  | "cancelled" => some .cancelled
+  | "outOfRange" => some .outOfRange
+  | "kafka" => some .kafka
+  | "groupFatal" => some .groupFatal
+  | "other" => some .other
+  | _ => none
+
+def showKind : ErrKind → String
+  | .cancelled => "cancelled" | .outOfRange => "outOfRange" | .kafka => "kafka" | .groupFatal => "groupFatal" | .other => "other"
+
+/-- `kind:tag` -/
+def parseKT (s : String) : Option (ErrKind × Nat) :=
+  match s.splitOn ":" with
+  | [k, t] => do some ((← parseKind k), (← t.toNat?))
+  | _ => none
+
+def parseOptKT (s : String) : Option (Option (ErrKind × Nat)) :=
+  if s == "-" then some none else (parseKT s).map some
+
+def showFail : Fail → String
+  | .ext k t => s!"ext:{showKind k}:{t}"
+  | .tooSmall => "tooSmall"
+  | .invalidGroup => "invalidGroup"
+  | .opInProgress w => s!"opInProgress:{w}"
+
+def parseFail (s : String) : Option Fail :=
+  match s.splitOn ":" with
+  | ["ext", k, t] => do some (.ext (← parseKind k) (← t.toNat?))
+  | ["tooSmall"] => some .tooSmall
+  | ["invalidGroup"] => some .invalidGroup
+  | ["opInProgress", w] => w.toNat?.map .opInProgress
+  | ["opInProgress"] => some (.opInProgress 0)
+  | _ => none
+
+def showOptInt : Option Int → String
+  | none => "none"
+  | some i => toString i
+
+def parseOptInt (s : String) : Option (Option Int) :=
+  if s == "none" then some none else s.toInt?.map some
+
+def showDRes : DRes → String
+  | .ok v => s!"ok {showOptInt v}"
+  | .err f => s!"err {showFail f}"
+
+def parseDRes : List String → Option DRes
+  | ["ok", v] => (parseOptInt v).map .ok
+  | ["err", f] => (parseFail f).map .err
+  | _ => none
+
+def parseMsg (s : String) : Option Msg :=
+  match s.splitOn ":" with
+  | [o, p] => do some { off := (← o.toInt?), pid := (← p.toNat?) }
+  | _ => none
+
+def parseMsgs (s : String) : Option (List Msg) :=
+  if s == "-" then some [] else (s.splitOn ",").mapM parseMsg
+
+def showMsgs (l : List Msg) : String :=
+  if l.isEmpty then "-" else ",".intercalate (l.map fun m => s!"{m.off}:{m.pid}")
+
+def parseTail (s : String) : Option Tail :=
+  match s.splitOn ":" with
+  | ["end"] => some .done
+  | ["small"] => some .small
+  | ["raise", k, t] => do some (.raise (← parseKind k) (← t.toNat?))
+  | _ => none
+
+def showTail : Tail → String
+  | .done => "end" | .small => "small" | .raise k t => s!"raise:{showKind k}:{t}"
+
+def parsePRes (s : String) : Option PRes :=
+  match s.splitOn ":" with
+  | ["ok"] => some .ok
+  | ["defer"] => some .defer
+  | ["err", k, t] => do some (.err (← parseKind k) (← t.toNat?))
+  | _ => none
+
+def showPRes : PRes → String
+  | .ok => "ok" | .defer => "defer" | .err k t => s!"err:{showKind k}:{t}"
+
+def parseAct : String → Option Act
+  | "stop" => some .stop | "commit" => some .commit | "shutdown" => some .shutdown | _ => none
+
+def parseEntry (s : String) : Option PEntry :=
+  match s.splitOn "/" with
+  | [a, r] => do
+    let acts ← if a == "-" then some [] else (a.splitOn ",").mapM parseAct
+    some { acts := acts, res := (← parsePRes r) }
+  | _ => none
+
+def parseTimer : String → Option TimerKind
+  | "retry" => some .retry | "commit" => some .commit | "loop" => some .loop | _ => none
+
+def showTimer : TimerKind → String
+  | .retry => "retry" | .commit => "commit" | .loop => "loop"
+
+def parseEv : List String → Option Ev
+  | ["start", o] => o.toInt?.map .start
+  | ["stop"] => some .stop
+  | ["shutdown"] => some .shutdown
+  | ["commit"] => some .commit
+  | ["fetchDone", k, "ok", ms, t] => do some (.fetchOk (← k.toNat?) { msgs := (← parseMsgs ms), tail := (← parseTail t) })
+  | ["fetchDone", k, "ok", ms, t, "foreign"] => do some (.fetchOk (← k.toNat?) { msgs := (← parseMsgs ms), tail := (← parseTail t) })
+  | ["fetchDone", k, "err", e] => do let (ek, t) ← parseKT e; some (.fetchErr (← k.toNat?) ek t)
+  | ["offsetDone", k, "ok", o] => do some (.offsetOk (← k.toNat?) (← o.toInt?))
+  | ["offsetDone", k, "err", e] => do let (ek, t) ← parseKT e; some (.offsetErr (← k.toNat?) ek t)
+  | ["offsetFetchDone", k, "ok", o] => do some (.offsetFetchOk (← k.toNat?) (← o.toInt?))
+  | ["offsetFetchDone", k, "err", e] => do let (ek, t) ← parseKT e; some (.offsetFetchErr (← k.toNat?) ek t)
+  | ["commitDone", k, "ok"] => k.toNat?.map .commitOk
+  | ["commitDone", k, "err", e] => do let (ek, t) ← parseKT e; some (.commitErr (← k.toNat?) ek t)
+  | ["procDone", "ok"] => some .procOk
+  | ["procDone", "err", e] => do let (ek, t) ← parseKT e; some (.procErr ek t)
+  | ["retryFire"] => some .retryFire
+  | ["commitRetryFire"] => some .commitRetryFire
+  | ["autoCommitTick"] => some .autoCommitTick
+  | ["advance", d] => (parseRat d).map .advance
+  | ["env", a, b] => do some (.env (← parseOptKT a) (← parseOptKT b))
+  | _ => none
+
+def showOb : Ob → String
+  | .fetch k o m => s!"fetch {k} {o} {m}"
+  | .offsets k t => s!"offsets {k} {t}"
+  | .offsetFetch k => s!"offsetFetch {k}"
+  | .commitReq k o => s!"commitReq {k} {o}"
+  | .proc blk => s!"proc {showMsgs blk}"
+  | .procRet r => s!"procRet {showPRes r}"
+  | .procCancel => "procCancel"
+  | .cancelReq k => s!"cancelReq {k}"
+  | .startFired r => s!"startFired {showDRes r}"
+  | .shutdownFired r => s!"shutdownFired {showDRes r}"
+  | .shutdownRejected => "shutdownRejected"
+  | .commitFired c r => s!"commitFired {c} {showDRes r}"
+  | .waiterFired w r => s!"waiterFired {w} {showDRes r}"
+  | .setTimer t d => s!"setTimer {showTimer t} {showRat d}"
+  | .cancelTimer t => s!"cancelTimer {showTimer t}"
+  | .stopReturned v => s!"stopReturned {showOptInt v}"
+  | .raisedRestart => "raised restart"
+  | .raisedRestop => "raised restop"
+  | .crash site => s!"crash {site}"
+  | .probe lp lc => s!"probe {showOptInt lp} {showOptInt lc}"
+
+def parseOb : List String → Option Ob
+  | ["fetch", k, o, m] => do some (.fetch (← k.toNat?) (← o.toInt?) (← m.toNat?))
+  | ["offsets", k, t] => do some (.offsets (← k.toNat?) (← t.toInt?))
+  | ["offsetFetch", k] => k.toNat?.map .offsetFetch
+  | "commitReq" :: k :: o :: _ => do some (.commitReq (← k.toNat?) (← o.toInt?))
+  | ["proc", ms] => (parseMsgs ms).map .proc
+  | ["procRet", r] => (parsePRes r).map .procRet
+  | ["procCancel"] => some .procCancel
+  | ["cancelReq", k] => k.toNat?.map .cancelReq
+  | "startFired" :: r => (parseDRes r).map .startFired
+  | "shutdownFired" :: r => (parseDRes r).map .shutdownFired
+  | ["shutdownRejected"] => some .shutdownRejected
+  | "commitFired" :: c :: r => do some (.commitFired (← c.toNat?) (← parseDRes r))
+  | "waiterFired" :: w :: r => do some (.waiterFired (← w.toNat?) (← parseDRes r))
+  | ["setTimer", t, d] => do some (.setTimer (← parseTimer t) (← parseRat d))
+  | ["cancelTimer", t] => (parseTimer t).map .cancelTimer
+  | ["stopReturned", v] => (parseOptInt v).map .stopReturned
+  | ["raised", "restart"] => some .raisedRestart
+  | ["raised", "restop"] => some .raisedRestop
+  | "crash" :: rest => some (.crash (" ".intercalate rest))
+  | ["probe", a, b] => do some (.probe (← parseOptInt a) (← parseOptInt b))
+  | _ => none
+
+def kv (ws : List String) (key : String) : Option String :=
+  (ws.filterMap fun w => match w.splitOn "=" with
+    | [k, v] => if k == key then some v else none
+    | _ => none).head?
+
+def parseCfg (ws : List String) : Option (Cfg × Option (ErrKind × Nat) × Option (ErrKind × Nat)) := do
+  let group ← (← kv ws "group").toNat?
+  let autoN ← (← kv ws "autoN").toNat?
+  let autoS ← parseRat (← kv ws "autoS")
+  let buf ← (← kv ws "buf").toNat?
+  let mx ← parseOptNat (← kv ws "max")
+  let init ← parseRat (← kv ws "init")
+  let maxd ← parseRat (← kv ws "maxd")
+  let attempts ← (← kv ws "attempts").toNat?
+  let rs ← kv ws "reset"
+  let reset ← if rs == "-" then some none else rs.toInt?.map some
+  let cr ← parseOptKT (← kv ws "cancelReq")
+  let cc ← parseOptKT (← kv ws "cancelCommit")
+  some ({ group := group != 0, autoN := autoN, autoS := autoS, bufInit := buf, bufMax := mx, retryInit := init,
+          retryMax := maxd, maxAttempts := attempts, reset := reset }, cr, cc)
+
+structure DSt where
+  cfg : Cfg := default
+  st : St := init default []
+  impl : List Item := []     -- recorded implementation trace, newest first
+
+/-- Observations emitted since `old` (both newest first). -/
+def newObs (old new : List Item) : List String :=
+  ((new.take (new.length - old.length)).reverse.filterMap fun
+    | .ob o => some (showOb o)
+    | .rej _ => some "bad-op"
+    | .ev _ => none)
+
+def evalMon (cfg : Cfg) (name : String) (tr : List Item) : Option Bool :=
+  match name with
+  | "c02-increasing" => some (Afkak.Monitor.C02.increasingOk cfg.reset.isSome tr)
+  | "c02-no-overlap" => some (Afkak.Monitor.C02.noOverlapOk tr)
+  | "c02-single-fetch" => some (Afkak.Monitor.C02.singleFetchOk tr)
+  | "c02-faithful" => some (Afkak.Monitor.C02.payloadOk tr)
+  | "c03-commit-le-processed" => some (Afkak.Monitor.C03.commitLeProcessedOk tr)
+  | "c03-one-in-flight" => some (Afkak.Monitor.C03.oneInFlightOk tr)
+  | "c03-committed-acked" => some (Afkak.Monitor.C03.committedAckedOk tr)
+  | "c03-resume" => some (Afkak.Monitor.C03.resumeOk tr)
+  | "c03-failure-stops" => some (Afkak.Monitor.C03.failureStopsOk tr)
+  | "c13-start-once" => some (Afkak.Monitor.C13.startOnceOk tr)
+  | "c13-quiescent" => some (Afkak.Monitor.C13.quiescentOk tr)
+  | "c13-shutdown" => some (Afkak.Monitor.C13.shutdownOk cfg.group tr)
+  | "c13-no-crash" => some (Afkak.Monitor.C13.noCrashOk tr)
+  | "c14-delays" => some (Afkak.Monitor.C14.delaysOk cfg.retryInit cfg.retryMax tr)
+  | "c14-reset" => some (Afkak.Monitor.C14.resetOk cfg.reset tr)
+  | "c14-growth" => some (Afkak.Monitor.C14.growthOk cfg.bufInit cfg.bufMax tr)
+  | "c14-never-skips" => some (Afkak.Monitor.C14.neverSkipsOk tr)
+  | "c14-attempts" => some (Afkak.Monitor.C14.attemptsOk cfg.maxAttempts tr)
+  | _ => none
+
+def step (d : DSt) (line : String) : DSt × List String :=
+  match words line with
+  | "new" :: ws =>
+    match parseCfg ws with
+    | some (cfg, cr, cc) => ({ cfg := cfg, st := { init cfg [] with envReq := cr, envCommit := cc }, impl := [] }, ["ok"])
+    | none => (d, ["bad-op"])
+  | "script" :: es =>
+    match es.mapM parseEntry with
+    | some script => ({ d with st := { d.st with script := script } }, ["ok"])
+    | none => (d, ["bad-op"])
+  | ["tr-reset"] => ({ d with impl := [] }, ["ok"])
+  | "tr" :: "ev" :: ws =>
+    match parseEv ws with
+    | some e => ({ d with impl := .ev e :: d.impl }, [])
+    | none => (d, ["bad-op"])
+  | "tr" :: "rej" :: ws =>
+    match parseEv ws with
+    | some e => ({ d with impl := .rej e :: d.impl }, [])
+    | none => (d, ["bad-op"])
+  | "tr" :: "ob" :: ws =>
+    match parseOb ws with
+    | some o => ({ d with impl := .ob o :: d.impl }, [])
+    | none => (d, ["bad-op"])
+  | ["mon", name] =>
+    match evalMon d.cfg name d.impl.reverse with
+    | some b => (d, [if b then "ok" else "fail"])
+    | none => (d, ["bad-op"])
+  | ["mon-model", name] =>
+    match evalMon d.cfg name d.st.out.reverse with
+    | some b => (d, [if b then "ok" else "fail"])
+    | none => (d, ["bad-op"])
+  | ["dump"] => (d, [reprStr d.st |>.replace "\n" " "])
+  | ws =>
+    match parseEv ws with
+    | some e =>
+      let st' := Afkak.Consumer.step d.cfg d.st e
+      ({ d with st := st' }, newObs d.st.out st'.out)
+    | none => (d, ["bad-op"])
 
 end Driver.Consumer
 
 def main : IO UInt32 := do
-  Driver.loop (← IO.getStdin) (← IO.getStdout) () Driver.Consumer.step
+  Driver.loop (← IO.getStdin) (← IO.getStdout) ({} : Driver.Consumer.DSt) Driver.Consumer.step
   return 0
